@@ -7,7 +7,7 @@ G = None
 def register(progs, g):
     global G
     G = g
-    progs.update({'C17': prog_C17, 'C03': prog_C03, 'C16': prog_C16, 'C01': prog_C01, 'C02': prog_C02, 'C08': prog_C08, 'C09': prog_C09, 'C10': prog_C10, 'C15': prog_C15, 'C18': prog_C18})
+    progs.update({'C17': prog_C17, 'C03': prog_C03, 'C16': prog_C16, 'C01': prog_C01, 'C02': prog_C02, 'C08': prog_C08, 'C09': prog_C09, 'C10': prog_C10, 'C15': prog_C15, 'C18': prog_C18, 'C07': prog_C07})
 
 
 def plain_diff(ops_path, a_path, b_path, limit=40):
@@ -256,3 +256,17 @@ def prog_C18(ctx):
     ctx.cov['trusted_base'] += ['airgapped machine: no Lean model of the handlers (kyber DKG/VSS, ECIES, BLS); covered by fault injection on the real machine only: every operation a participant receives in a real ceremony is fed to a clone in structure-aware mutated forms (field deletion, type confusion, negative/huge integers, empty/oversized arrays, short identifiers, unknown types, truncated/bit-flipped/random/zero byte strings incl. nested JSON, reversed/huge signing ranges) behind a recover(); a refused operation must leave the database byte-identical',
                                 'byte-level coverage-guided fuzzing of the decoders is not part of this check (encoding/json is trusted)']
     ctx.cov['rule'] += '; sszdiff: reversed/negative/huge ranges; airdiff: per operation of a ceremony a sample (quick) or all (thorough) of its mutations'
+
+
+def prog_C07(ctx):
+    fsm_part(ctx, ['C06', 'C07'], ['event_signing'])
+    generic(ctx, ['Dc4bcVerif.Props.C07', 'Dc4bcVerif.Props.C06'], 'algdiff', 'alg', ['C07'], ALG_TRUSTED + NODE_TRUSTED[:1],
+            ALG_RULE + '; C07: per ceremony one pair of racing proposals and schedules of two batches with a slow signer answering never / after the batch / after the next proposal / between the next batch\'s answers / after it, polls after each answer or only at the end (n=3,t=2: 16 sampled in quick, ALL in thorough; other configurations sampled)',
+            cov_from_stats=alg_cov)
+    # the node layer (collected => broadcast + idle in one step; broadcasts stored) is tied by nodediff
+    res = run_linediff(ctx, 'nodediff', 'node')
+    if res is not None and res['lean_ok'] and res['ndiffs']:
+        ctx.broken.append(dict(kind='correspondence', what='nodediff: real node and Lean node model disagree on %d of %d operations' % (res['ndiffs'], res['nops']),
+                               detail='', diffs=res['diffs'][:10], script=os.path.join(res['dir'], 'ops.txt')))
+    if res is not None:
+        ctx.cov['node_layer'] = dict(operations=res['nops'], disagreements=res['ndiffs'])
